@@ -113,6 +113,11 @@ impl CachedBlocks {
     }
   }
 
+  /// Select which switchable ROM bank the 0x4000 - 0x7fff cache refers to
+  pub fn set_rom_bank(&mut self, bank: u16) {
+    self.rom_high.set_bank(bank);
+  }
+
   pub fn get_region(&self, addr: u16) -> Option<&CacheRegion> {
     if addr < 0x4000 {
       return Some(&self.rom_low);
